@@ -36,4 +36,24 @@ def partsConsistent (numTiles : Nat) (sots : List Sot) : Bool :=
     !ps.isEmpty && ps.zipIdx.all (fun (s, k) => s.tpsot = k && (s.tnsot = 0 || s.tnsot = ps.length))
   && sots.all (·.isot < numTiles)
 
+/-! ### tile-part bodies (A.1, B.10.1, D.5: no marker code FF90..FFFF inside coded data) -/
+
+/-- every 0xFF that has a successor is followed by a byte < `bound` -/
+def PairBelow (bound : Nat) : List Nat → Prop
+  | a :: b :: rest => (a = 255 → b < bound) ∧ PairBelow bound (b :: rest)
+  | _ => True
+
+instance (bound : Nat) : (l : List Nat) → Decidable (PairBelow bound l)
+  | [] => isTrue trivial
+  | [_] => isTrue trivial
+  | a :: b :: rest =>
+    have : Decidable (PairBelow bound (b :: rest)) := instDecidablePairBelow bound (b :: rest)
+    by unfold PairBelow; infer_instance
+
+/-- what 15444-1 requires of the bytes between SOD and the next marker: no two-byte value FF90..FFFF, and the
+    last byte is not 0xFF (it would pair with the FF of the following SOT / EOC marker) -/
+def BodyOk (l : List Nat) : Prop := PairBelow 0x90 l ∧ l.getLast? ≠ some 255
+
+instance (l : List Nat) : Decidable (BodyOk l) := by unfold BodyOk; infer_instance
+
 end StrictJ2k
